@@ -306,7 +306,8 @@ def renumbered_cgr(ctx, r, p, cgr, src, rng):
         if len(set(col.values())) < len(col) and SY.symmetric_cage(r):
             ctx.exclude('gap-symmetric-cage', {'src': src})
             return
-        ctx.violation('cgr-string-depends-on-numbering', '%s: %s vs %s' % (src, cgr, c2), {'src': src})
+        tag = '/symmetric-bridged-polycycle' if SY.symmetric_bridged_polycycle(r) or SY.symmetric_bridged_polycycle(p) else ''     # recorded finding of C01
+        ctx.violation('cgr-string-depends-on-numbering' + tag, '%s: %s vs %s' % (src, cgr, c2), {'src': src})
     if set(mp[n] for n in cgr.center_atoms) != set(c2.center_atoms):
         ctx.violation('center-atoms-depend-on-numbering', src, {'src': src})
 
